@@ -192,7 +192,11 @@ def run_scenario(build, work, name, setup, pre_existing_out=None):
     except OSError:
         pass
     return {"dir": d, "rc": r.returncode, "stdout": (r.stdout + r.stderr).decode("latin-1"), "ops": ops, "writes": writes,
-            "before": before, "after": after, "tmp_leaked": sorted(tmp_after - tmp_before), "out": out, "errpath": errpath,
+            "before": before, "after": after,
+            # temporary files created by THIS run (per its own system-call trace) that still exist; a snapshot difference of
+            # /tmp would also count files of compilations that other checks run at the same time
+            "tmp_leaked": sorted(p for (p, fl, ret) in writes if p.startswith("/tmp/gdl") and "O_EXCL" in fl and ret >= 0 and os.path.exists(p)),
+            "out": out, "errpath": errpath,
             "errtext": errtext, "args": args}
 
 
